@@ -172,6 +172,25 @@ Lemma field_pub_table :
   lookup_b (ckind_name KString) newtype_field_pub = false.
 Proof. repeat split; vm_compute; reflexivity. Qed.
 
+(* expected_impls agrees with the regenerated surface tables: the From<&..> header is listed for every
+   kind the template emits it for, and the Deserialize header exactly for the validating kinds *)
+Lemma kinds_expected_impls :
+  forallb (fun k => Bool.eqb (has_header "::serde::Deserialize<'de>" k) (validating_for k)
+                    && Bool.eqb (has_header "::std::convert::From<&Self>" k || has_header "::std::convert::From<&$T>" k)
+                                (from_ref_for k)) all_kinds = true.
+Proof. vm_compute. reflexivity. Qed.
+
+Theorem expected_impls_cover_surface : forall T e k, kind_of T (e_det e) = Some k ->
+  (has_header "::serde::Deserialize<'de>" k = emits_validating_deserialize (e_det e)) /\
+  ((has_header "::std::convert::From<&Self>" k || has_header "::std::convert::From<&$T>" k)
+   = emits_from_ref_self (e_det e)).
+Proof.
+  intros T e k Hk. pose proof (lift_kinds _ kinds_expected_impls k) as H. cbn beta in H.
+  apply andb_true_iff in H. destruct H as [H1 H2].
+  apply eqb_prop in H1. apply eqb_prop in H2.
+  rewrite (validating_kind T _ k Hk), (from_ref_kind T _ k Hk). split; assumption.
+Qed.
+
 (* ------------------------------------------------------------------ surface theorems *)
 Theorem surface_base : forall T e, named e ->
   item_vis (e_det e) = Some Pub /\
